@@ -19,10 +19,10 @@ HARD = ["del_file", "truncate", "extend", "insert_boundary", "insert_data", "rem
         "cellh_delfod_fix", "cellh_garble_box", "cellh_garble_tokens", "fod_garble_offset", "fod_garble_tokens",
         "fod_nofile", "fod_other", "fod_data", "fod_eof", "fod_negative", "del_cellh", "del_both_fix",
         "fab_ncomp_consistent", "nfields_plus", "pad_fix"]
-COORD = ["bounds_shift"]
+COORD = ["bounds_shift", "bounds_nonfinite"]
 # kinds that tend to survive validation (C20's domain)
 SOFT = ["off_prefix", "ws_cellh", "ws_header", "fab_prefix_text", "swap_pairs", "minmax_edit", "payload_flip",
-        "fod_other_samebox", "swap_fod_only", "fod_path", "level_time"]
+        "fod_other_samebox", "swap_fod_only", "fod_path", "level_time", "fab_long_header"]
 
 C04_CLASS = {"del_file": "missing-file", "del_cellh": "level-header", "truncate": "layout", "extend": "layout",
              "insert_boundary": "layout", "insert_data": "layout", "remove_data": "layout", "fab_shape": "layout",
@@ -32,7 +32,7 @@ C04_CLASS = {"del_file": "missing-file", "del_cellh": "level-header", "truncate"
              "cellh_garble_tokens": "level-header", "fod_garble_offset": "level-header",
              "fod_garble_tokens": "level-header", "fod_nofile": "level-header", "fod_other": "level-header",
              "fod_data": "level-header", "fod_eof": "level-header", "fod_negative": "level-header",
-             "del_both_fix": "level-header", "bounds_shift": "coordinates", "fab_ncomp_consistent": "layout",
+             "del_both_fix": "level-header", "bounds_shift": "coordinates", "bounds_nonfinite": "coordinates", "fab_ncomp_consistent": "layout",
              "nfields_plus": "layout", "pad_fix": "layout"}
 
 
@@ -150,6 +150,21 @@ def _apply(p, op):
         def f(t):
             for b2, (fn2, off2) in enumerate(lev["fod"]):
                 if fn2 == fn and off2 >= off:
+                    j = lev["fod0"] + b2
+                    t[j] = " ".join(t[j].split()[:2] + [str(off2 + len(pad))])
+        _rw(ch, f)
+    elif k == "fab_long_header":
+        # the text header of this box's FAB padded with hundreds of blanks / tabs before its line end (the line becomes
+        # longer than any fixed read size one might assume), the recorded positions of the later boxes of the file moved
+        # accordingly: the tree stays self-consistent
+        d = rd()
+        e = d.index(b"\n", off)
+        pad = {1: b" " * 200, 3: b"\t" * 300, 8: b" \t" * 350, 64: b" " * 1100}.get(amt, b" " * 270)
+        wr(d[:e] + pad + d[e:])
+
+        def f(t):
+            for b2, (fn2, off2) in enumerate(lev["fod"]):
+                if fn2 == fn and off2 > off:
                     j = lev["fod0"] + b2
                     t[j] = " ".join(t[j].split()[:2] + [str(off2 + len(pad))])
         _rw(ch, f)
@@ -354,6 +369,18 @@ def _apply(p, op):
                 a = a - w * ncell
             t[i] = f"{a!r} {c!r}"
         _rw(os.path.join(p, "Header"), f)
+    elif k == "bounds_nonfinite":
+        # one physical bound of a box replaced by text that parses to a non-finite number
+        def f(t):
+            i = 2 + inf["nf"] + 8 + (inf["maxlev"] + 1) + 2
+            for ll in range(l):
+                nbl = int(t[i].split()[1])
+                i += 2 + nbl * nd + 1
+            i += 2 + b * nd + dim
+            toks = t[i].split()
+            toks[1 if op["side"] else 0] = ["nan", "inf", "-inf", "1e999", "NaN"][op["amt"] % 5]
+            t[i] = " ".join(toks)
+        _rw(os.path.join(p, "Header"), f)
     else:
         raise ValueError(k)
     return site
@@ -447,6 +474,6 @@ def validate(path, limit=None, coords=False):
                     ea = hdr["geo_lo"][d] + lo[d] * dx
                     ec = hdr["geo_lo"][d] + (hi[d] + 1) * dx
                     a, c = hdr["levels"][l]["phys"][b][d]
-                    if abs(a - ea) > 0.5 * dx or abs(c - ec) > 0.5 * dx:
+                    if not (abs(a - ea) <= 0.5 * dx and abs(c - ec) <= 0.5 * dx):       # (a NaN bound contradicts too)
                         bad.append(("coordinates", (l, b, d)))
     return bad
